@@ -421,6 +421,10 @@ class ToArgs(Generic[T]):
         self._duplicates = {i for i, k in enumerate(keys) if counts[k] > 1}
 
     def found_index(self, index: int) -> tuple[T, Optional[int]]:
+        # An arg which wrapped around to a negative number (hand written bytecode)
+        # would be counted from the end of the table
+        if index < 0:
+            raise NotImplementedError(f"Negative index {index} into a table")
         if index not in self._index_to_order:
             self._index_to_order[index] = len(self._index_to_order)
         wrong_position = (
